@@ -255,11 +255,13 @@ def write_replay(prop_id, payload):
 def load_findings():
     '''known_findings.txt: lines ``open: property=<id> class=<cls> <text>`` or
     ``fixed: property=<id> <commit> <text>``.'''
-    path = VERIF / 'known_findings.txt'
     entries = []
-    if not path.exists():
-        return entries
-    for line in path.read_text().splitlines():
+    lines = []
+    for path in [VERIF / 'known_findings.txt'] + sorted(
+            (VERIF / 'findings').glob('*.txt')):
+        if path.exists():
+            lines.extend(path.read_text().splitlines())
+    for line in lines:
         line = line.strip()
         if not line or line.startswith('#'):
             continue
